@@ -8,6 +8,11 @@ Sub-checks
             compat form / in-process CLI main([...]) (file written with the loader's own format and RE-LOADED) agree on
             verdict, message lines, normalised dict and warnings; accepted => every documented range / enumeration /
             cross-field rule of the frozen table holds on the normalised output (NaN satisfies no range).
+  leafwise  EXHAUSTIVE single-leaf enumeration: every leaf of the frozen table x every pool value (valid incl. boundaries
+            and large magnitudes / just outside / wrong type / NaN, inf, 10**400 ...), every section x every scalar/list
+            replacement, every top-level unknown key (typos, random, non-string). Same validator oracles; additionally a
+            documented-valid value must be ACCEPTED (only the listed cross-field messages may reject it) and an unknown
+            top-level key must be REJECTED with a message naming it.
   hashseed  the same generator, batches evaluated by child interpreters under PYTHONHASHSEED=0,1,2,random: verdict and
             message lines must be identical in all of them.
   cli       sample of real subprocesses: `python -m clematis validate FILE`, `python -m clematis validate --json FILE`,
@@ -42,7 +47,8 @@ from hypothesis import strategies as st
 from harness.runner import Sub, Violation, run_hypothesis, digest
 
 LEVEL = "exploration"
-RULE = ("total/hashseed/cli/atheris: Hypothesis (or byte-decoded) nested mappings over the frozen v1 key tree: 0-8 leaf "
+RULE = ("leafwise: exhaustive product (table leaf x pool value; section x replacement; top-level unknown keys), distinct by "
+        "construction, non-trivial = every non-valid class. total/hashseed/cli/atheris: Hypothesis (or byte-decoded) nested mappings over the frozen v1 key tree: 0-8 leaf "
         "assignments drawn from {valid, boundary, just outside, wrong type (None/str/list/dict/bool), NaN/+-inf, 10**400, "
         "negative, empty containers} plus 0-3 structural edits {near-miss typo of a sibling key, random string key, "
         "non-string key (int/None/tuple/bool/float), section replaced by scalar/list/empty}. Non-trivial = the input has "
@@ -933,6 +939,66 @@ def check_total(cfg, rec=None, tmpdir=None, labels=(), with_cli=True):
     return view, out_labels
 
 
+def _paths_of(cfg, prefix=()):
+    out = []
+    if isinstance(cfg, dict):
+        for k, v in cfg.items():
+            out.append(prefix + (k,))
+            out.extend(_paths_of(v, prefix + (k,)))
+    return out
+
+
+def _without(cfg, path):
+    c = copy.deepcopy(cfg)
+    d = c
+    for k in path[:-1]:
+        d = d[k]
+    del d[path[-1]]
+    return c
+
+
+def minimise_cfg(cfg, sig, fails, budget=200):
+    """Greedy deletion of key paths (any depth) while `fails(cfg)` keeps returning the same signature."""
+    if not isinstance(cfg, dict):
+        return cfg
+    cur = cfg
+    progress = True
+    while progress and budget > 0:
+        progress = False
+        for path in sorted(_paths_of(cur), key=lambda p: (len(p), repr(p))):
+            if budget <= 0:
+                break
+            budget -= 1
+            try:
+                cand = _without(cur, path)
+            except (KeyError, TypeError):
+                continue
+            if fails(cand) == sig:
+                cur = cand
+                progress = True
+                break
+    return cur
+
+
+def _sig_total(cfg):
+    try:
+        check_total(cfg, None, None)
+    except Violation as v:
+        return v.sig
+    return None
+
+
+def _post_minimise(rec, prefix, sig_fn, key="cfg"):
+    """Shrink the recorded (already Hypothesis-shrunk) failing inputs a bit further by key deletion."""
+    for v in rec.violations:
+        if not v["message"].startswith(prefix) or not isinstance(v.get("case"), dict) or key not in v["case"]:
+            continue
+        cfg = dec(v["case"][key])
+        small = minimise_cfg(cfg, v["sig"], sig_fn)
+        if small is not cfg:
+            v["case"] = dict(v["case"], **{key: enc(small)})
+
+
 def sub_total(rec, seed, shard, nshards, n=750, shrink=True):
     tmpdir = tempfile.mkdtemp(prefix="c14_total_", dir=os.environ.get("VERIF_TMP") or None)
 
@@ -945,6 +1011,7 @@ def sub_total(rec, seed, shard, nshards, n=750, shrink=True):
 
     try:
         run_hypothesis(rec, seed, cfg_inputs(), body, max_examples=n, shrink=shrink, name="total")
+        _post_minimise(rec, "total:", _sig_total)
     finally:
         shutil.rmtree(tmpdir, ignore_errors=True)
 
@@ -1568,6 +1635,33 @@ def sub_runnable(rec, seed, shard, nshards, n=75, shrink=True):
 
     logging.disable(logging.CRITICAL)
     run_hypothesis(rec, seed, runnable_cases(), lambda c: check_runnable(c, rec), max_examples=n, shrink=shrink, name="runnable")
+    _minimise_runnable(rec)
+
+
+def _sig_runnable(case):
+    try:
+        check_runnable(case, None)
+    except Violation as v:
+        return v.sig
+    return None
+
+
+def _minimise_runnable(rec):
+    for v in rec.violations:
+        case = v.get("case")
+        if not v["message"].startswith("runnable:") or not isinstance(case, dict) or "assign" not in case:
+            continue
+        cur = copy.deepcopy(case)
+        for field in ("assign", "lenient"):
+            i = 0
+            while i < len(cur.get(field) or []):
+                cand = copy.deepcopy(cur)
+                del cand[field][i]
+                if _sig_runnable(cand) == v["sig"]:
+                    cur = cand
+                else:
+                    i += 1
+        v["case"] = cur
 
 
 def replay_runnable(case):
@@ -1702,6 +1796,7 @@ def sub_atheris(rec, seed, shard, nshards, runs=3000):
             with open(fp, "r", encoding="utf-8") as f:
                 fail = json.load(f)
             rec.violation("atheris: " + fail["message"], fail["case"], fail["sig"])
+            _post_minimise(rec, "atheris:", _sig_total)
             return
         if p.returncode != 0 or execs == 0:
             raise RuntimeError(f"atheris target failed rc={p.returncode}\n{out[-3000:]}")
